@@ -2516,3 +2516,92 @@ Proof.
     intros j Hj [E|[]]. apply (f_equal (@length comp)) in E. rewrite app_length, rep12_length in E. cbn in E. lia. }
   rewrite H. reflexivity.
 Qed.
+
+(* ================================================================================================ *)
+(* K. finite lookups *)
+
+Lemma fs_of_finite : forall files dirs p id, fs_of files dirs p = Some (File id) -> In p (map fst files).
+Proof.
+  intros files dirs p id H. unfold fs_of in H. destruct p as [|c p]; [discriminate|].
+  destruct (mem (c :: p) dirs); [discriminate|].
+  destruct (find (fun e => path_eqb (c :: p) (fst e)) files) as [e|] eqn:E; [|discriminate].
+  apply find_some in E as [E1 E2]. apply path_eqb_eq in E2. rewrite E2. apply in_map. exact E1.
+Qed.
+
+Lemma resolve_error_iff_lemma : forall lookup ast ffacts fuel cfg root,
+  Tame lookup ast ffacts root -> skip_children cfg = false -> input_is_stdin cfg = false ->
+  resolve_fuel lookup ast ffacts fuel cfg root <> Err OutOfFuel ->
+  ((exists e, resolve_fuel lookup ast ffacts fuel cfg root = Err e) <-> (exists e, ErrWitness lookup ast ffacts root e))
+  /\ (forall e, resolve_fuel lookup ast ffacts fuel cfg root = Err e -> ErrWitness lookup ast ffacts root e).
+Proof.
+  intros lookup ast ffacts fuel cfg root HT Hsc Hst Hno.
+  assert (Hs : forall e, resolve_fuel lookup ast ffacts fuel cfg root = Err e -> ErrWitness lookup ast ffacts root e).
+  { intros e He. destruct (resolve_err_sound lookup ast ffacts fuel cfg root e HT He) as [->|Hw]; [contradiction | exact Hw]. }
+  split; [|exact Hs]. split.
+  - intros (e & He). exists e. apply Hs, He.
+  - apply resolve_err_complete; assumption.
+Qed.
+
+(* ================================================================================================ *)
+(* L. the statements of Props.v *)
+
+Lemma formatted_once_refuted_lemma : exists (w : world) S p q id,
+  w_resolve w cfg0 = Ok S /\ In p S /\ In q S /\ p <> q /\
+  w_lookup w p = Some (File id) /\ w_lookup w q = Some (File id).
+Proof. exists W1. exact w1_formatted_twice. Qed.
+
+Lemma skipped_file_excluded_refuted_lemma : exists (w : world) S p id,
+  w_resolve w cfg0 = Ok S /\ In p S /\ w_lookup w p = Some (File id) /\ inner_skip (w_ff w id) = true /\
+  w_Excluded w cfg0 p.
+Proof. exists W2. exact w2_skipped_file_formatted. Qed.
+
+Lemma decoys_untouched_refuted_lemma : exists (w : world) S p e,
+  w_resolve w cfg0 = Ok S /\ In p S /\ ~ w_Reach w p /\
+  ErrWitness (w_lookup w) (w_ast w) (w_ff w) (w_root w) e.
+Proof. exists W3. exact w3_heuristic_guess. Qed.
+
+Lemma root_is_crate_root_refuted_lemma : exists (w : world) S p q,
+  w_resolve w cfg0 = Ok S /\ In p S /\ ~ w_Reach w p /\
+  w_Reach w q /\ ~ w_Excluded w cfg0 q /\ ~ In q S.
+Proof. exists W4. exact w4_root_sibling_dir. Qed.
+
+Lemma reached_twice_complete_refuted_lemma : exists (w : world) S p,
+  w_resolve w cfg0 = Ok S /\ w_Reach w p /\ ~ w_Excluded w cfg0 p /\ ~ In p S.
+Proof. exists W5. exact w5_second_context_lost. Qed.
+
+Lemma nested_cfg_if_refuted_lemma : exists (w : world) S p,
+  w_resolve w cfg0 = Ok S /\ w_Reach w p /\ ~ w_Excluded w cfg0 p /\ ~ In p S.
+Proof. exists W6. exact w6_nested_cfg_if. Qed.
+
+Lemma inline_cfg_attr_path_refuted_lemma : exists (w : world) S p,
+  w_resolve w cfg0 = Ok S /\ w_Reach w p /\ ~ w_Excluded w cfg0 p /\ ~ In p S.
+Proof. exists W7. exact w7_inline_cfg_attr_path. Qed.
+
+Lemma unparsable_is_error_refuted_lemma : exists (w : world) S,
+  w_resolve w cfg0 = Ok S /\ ErrWitness (w_lookup w) (w_ast w) (w_ff w) (w_root w) ParseError.
+Proof. exists W8. exact w8_parse_error_swallowed. Qed.
+
+Lemma fuel_enough_refuted_lemma : exists (w : world), forall fuel,
+  resolve_fuel (w_lookup w) (w_ast w) (w_ff w) fuel cfg0 (w_root w) = Err OutOfFuel.
+Proof. exists W12. exact w12_no_fuel_suffices. Qed.
+
+Lemma skipped_missing_not_an_error_lemma : exists (w : world) n,
+  w_resolve w cfg0 = Ok [w_root w] /\ lang_default (w_lookup w) false (root_ctx (w_root w)) n = Err NotFound.
+Proof. exists W9, 0. exact w9_skipped_missing_ok. Qed.
+
+Lemma skip_prunes_subtree_lemma : exists (w : world) S q,
+  w_resolve w cfg0 = Ok S /\ w_Reach w q /\ ~ In q S /\
+  ~ ReachUnskipped (w_lookup w) (w_ast w) (w_ff w) (w_root w) q.
+Proof. exists W10. exact w10_skip_prunes_subtree. Qed.
+
+Lemma fallback_beyond_language_lemma : exists (w : world) S p,
+  w_resolve w cfg0 = Ok S /\ In p S /\ w_Reach w p /\
+  ~ StrictReach (w_lookup w) (w_ast w) (w_ff w) (w_root w) p.
+Proof. exists W11. exact w11_fallback_fires. Qed.
+
+Lemma resolve_nodup_lemma : forall lookup ast ffacts fuel cfg root S,
+  resolve_fuel lookup ast ffacts fuel cfg root = Ok S -> NoDup S.
+Proof. intros lookup ast ffacts fuel cfg root S H. exact (proj1 (resolve_keys_nodup lookup ast ffacts fuel cfg root S H)). Qed.
+Lemma resolve_sorted_lemma : forall lookup ast ffacts fuel cfg root S,
+  resolve_fuel lookup ast ffacts fuel cfg root = Ok S -> StronglySorted (fun p q => path_ltb p q = true) S.
+Proof. intros lookup ast ffacts fuel cfg root S H. exact (proj2 (resolve_keys_nodup lookup ast ffacts fuel cfg root S H)). Qed.
